@@ -188,6 +188,11 @@ func (pnf *PageNumberFinder) getPageInfoAndText(link *html.Node, pageURL *nurl.U
 			return nil, ""
 		}
 
+		// Pagination links must be fetchable web pages.
+		if hrefURL.Scheme != "http" && hrefURL.Scheme != "https" {
+			return nil, ""
+		}
+
 		hrefURL, err = nurl.Parse(linkHref)
 		if err != nil {
 			return nil, ""
